@@ -39,11 +39,18 @@ const (
 	maxRune  = 0x10FFFF
 	nRunes   = maxRune + 1
 	nPages   = nRunes >> 8
-	iterCap  = 3_000_000 // no well-behaved Iter yields more pairs than this for our inputs
+	iterCap  = nRunes + 0x10000 // each rune at most once: no lawful Iter yields more pairs for our inputs
 	maxDiscs = 6         // discrepancies kept per class (counts are exact)
 )
 
 func u(r rune) string { return fmt.Sprintf("U+%04X", uint32(r)) }
+
+// guard runs f (calls of the code under test only); a panic is returned instead of propagated.
+func guard(f func()) (p any) {
+	defer func() { p = recover() }()
+	f()
+	return nil
+}
 
 // ---- bit sets over the code space -------------------------------------------------------------
 
@@ -94,6 +101,7 @@ func getScratch() *scratch {
 const (
 	dPanic         = "panic"
 	dIterRunaway   = "iter-runaway"    // Iter does not terminate within iterCap pairs
+	dCovRunaway    = "coverage-runaway" // the coverage is built by walking that same Iter (not evaluated)
 	dIterDup       = "iter-dup"        // Iter yields a rune twice
 	dIterNotLookup = "iter-not-lookup" // Iter yields (r,g) but Lookup(r) is not ok
 	dIterGlyph     = "iter-glyph"      // Iter yields (r,g), Lookup(r) = (g',true), g != g'
@@ -126,6 +134,11 @@ type report struct {
 	nLookup    int  // number of runes (in the evaluated universe) with Lookup ok
 	nIter      int  // pairs yielded by Iter
 	covDiffers bool // coverage rune set differs from Lookup on at least one rune
+	// script material: the ScriptSet of the coverage, the scripts of the runes Lookup maps and
+	// the scripts of the runes the coverage contains (script -> first such rune)
+	scripts     fontscan.ScriptSet
+	wantLookup  map[language.Script]rune
+	wantCovered map[language.Script]rune
 }
 
 func (rp *report) add(d disc) {
@@ -262,11 +275,30 @@ func checkCmap(cm font.Cmap, exhaustive bool, hint [][2]int64) (rp *report) {
 
 	// ---- coverage (through the verif hook: newCoveragesFromCmap)
 	stage = "newCoveragesFromCmap"
-	rs, ss := fontscan.VerifCoverages(cm)
+	var (
+		rs fontscan.RuneSet
+		ss fontscan.ScriptSet
+	)
+	covSkipped := false
+	if rp.counts[dIterRunaway] > 0 && !isRanger {
+		// newCoveragesFromCmap would walk the same Iter to its end (up to 2^32 pairs): the
+		// harness does not wait for it
+		covSkipped = true
+		rp.add(disc{Class: dCovRunaway, Msg: "the coverage is built by walking Iter, which yields more pairs than there are code points"})
+	} else {
+		rs, ss = fontscan.VerifCoverages(cm)
+	}
 
 	// ---- Lookup over the universe, compared with the three other views
 	stage = "Lookup"
-	var wantScripts = map[language.Script]rune{} // script -> first covered rune having it
+	wantScripts := map[language.Script]rune{} // script -> first rune mapped by Lookup having it
+	covScripts := map[language.Script]rune{}  // script -> first rune of the coverage having it
+	note := func(m map[language.Script]rune, r rune) {
+		sc := language.LookupScript(r)
+		if _, has := m[sc]; !has {
+			m[sc] = r
+		}
+	}
 	for p := 0; p < nPages; p++ {
 		if !un.has(p) {
 			continue
@@ -280,10 +312,7 @@ func checkCmap(cm font.Cmap, exhaustive bool, hint [][2]int64) (rp *report) {
 				if !s.itSeen.has(r) {
 					rp.add(disc{Class: dLookupNotIter, Rune: r, Lookup: int64(g), Msg: fmt.Sprintf("Lookup(%s) = (%d, true) but Iter never yields the rune", u(r), g)})
 				}
-				sc := language.LookupScript(r)
-				if _, has := wantScripts[sc]; !has {
-					wantScripts[sc] = r
-				}
+				note(wantScripts, r)
 			}
 			if isRanger {
 				if in := s.rrSet.has(r); in && !ok {
@@ -292,7 +321,14 @@ func checkCmap(cm font.Cmap, exhaustive bool, hint [][2]int64) (rp *report) {
 					rp.add(disc{Class: dRangesMissing, Rune: r, Lookup: int64(g), Msg: fmt.Sprintf("Lookup(%s) = (%d, true) but RuneRanges does not contain the rune", u(r), g)})
 				}
 			}
-			if in := rs.Contains(r); in && !ok {
+			if covSkipped {
+				continue
+			}
+			in := rs.Contains(r)
+			if in {
+				note(covScripts, r)
+			}
+			if in && !ok {
 				rp.covDiffers = true
 				rp.add(disc{Class: dCovExtra, Rune: r, Msg: fmt.Sprintf("coverage contains %s but Lookup reports no glyph", u(r))})
 			} else if !in && ok {
@@ -312,6 +348,13 @@ func checkCmap(cm font.Cmap, exhaustive bool, hint [][2]int64) (rp *report) {
 	}
 	for _, p := range outside {
 		g, ok := cm.Lookup(p.r)
+		if ok {
+			// a code beyond U+10FFFF that Lookup maps: LookupScript gives it the Unknown script;
+			// the coverage cannot be probed there (RuneSet pages are 16 bits), so the rune is
+			// taken as covered for the script expectation
+			note(wantScripts, p.r)
+			note(covScripts, p.r)
+		}
 		if !ok {
 			rp.add(disc{Class: dIterNotLookup, Rune: p.r, Glyph: uint32(p.g), Msg: fmt.Sprintf("Iter yields (%s, %d) but Lookup reports no glyph", u(p.r), p.g)})
 		} else if g != p.g {
@@ -319,31 +362,14 @@ func checkCmap(cm font.Cmap, exhaustive bool, hint [][2]int64) (rp *report) {
 		}
 	}
 
-	// ---- script set
-	stage = "scripts"
-	for i, sc := range ss {
-		if i > 0 && ss[i-1] >= sc {
-			rp.add(disc{Class: dScriptOrder, Script: sc.String(), Msg: fmt.Sprintf("ScriptSet is not strictly increasing at index %d (%s after %s)", i, sc, ss[i-1])})
+	if covSkipped {
+		covScripts = wantScripts
+		for sc := range wantScripts {
+			ss = append(ss, sc)
 		}
-		if _, want := wantScripts[sc]; !want {
-			rp.add(disc{Class: dScriptExtra, Script: sc.String(), Msg: fmt.Sprintf("ScriptSet contains %q but no rune mapped by Lookup has that script", sc.String())})
-		}
+		sort.Slice(ss, func(i, j int) bool { return ss[i] < ss[j] })
 	}
-	have := map[language.Script]bool{}
-	for _, sc := range ss {
-		have[sc] = true
-	}
-	var missing []language.Script
-	for sc := range wantScripts {
-		if !have[sc] {
-			missing = append(missing, sc)
-		}
-	}
-	sort.Slice(missing, func(i, j int) bool { return missing[i] < missing[j] })
-	for _, sc := range missing {
-		r := wantScripts[sc]
-		rp.add(disc{Class: dScriptMissing, Rune: r, Script: sc.String(), Msg: fmt.Sprintf("Lookup maps %s (script %q) but the ScriptSet lacks that script", u(r), sc.String())})
-	}
+	rp.scripts, rp.wantLookup, rp.wantCovered = ss, wantScripts, covScripts
 	return rp
 }
 
@@ -354,29 +380,42 @@ func checkCmap(cm font.Cmap, exhaustive bool, hint [][2]int64) (rp *report) {
 
 const (
 	// cmap format 4, segment using idRangeOffset whose glyphIdArray entry is 0: Lookup reports
-	// "no glyph" (as the specification says) but Iter yields (r, 0) and RuneRanges/coverage/scripts
-	// contain r.
+	// "no glyph" (as the specification says) but Iter yields (r, 0) and RuneRanges, hence the
+	// coverage, contain r.
 	kfCmap4Zero = "C11-cmap4-zero-entries-enumerated"
-	// legacy remappers (symbol, simplified/traditional Arabic): Lookup maps additional runes that
-	// Iter / coverage / scripts do not contain.
+	// legacy remappers on a (3,0) subtable (symbol, simplified/traditional Arabic font page):
+	// Lookup maps additional runes that Iter, hence the coverage, do not contain.
 	kfRemap = "C11-remapped-runes-not-enumerated"
 	// scriptsFromRanges adds language.Unknown when a range reaches the last entry of
 	// language.ScriptRanges, although no covered rune has an unknown script.
 	kfScriptsLast = "C11-scripts-unknown-after-last-range"
-	// ProcessCmap accepts format 4/12/13 subtables whose segments/groups are not sorted, overlap,
-	// have start > end or (12/13) exceed U+10FFFF; bisection and enumeration then disagree.
-	kfUnsorted = "C11-malformed-groups-accepted"
+	// format 4/12/13 segment or group with start > end: Lookup never matches it, Iter walks
+	// from start until the 16/32-bit difference wraps, RuneRanges reports the inverted pair.
+	kfInverted = "C11-inverted-segment-enumerated"
+	// ProcessCmap accepts format 4/12/13 subtables whose segments/groups are not sorted or
+	// overlap, and format 10/12/13 codes beyond U+10FFFF; bisection, enumeration and the 16-bit
+	// pages of the coverage then disagree.
+	kfUnordered = "C11-unordered-groups-accepted"
+	// cmap format 4, idRangeOffset segment with idDelta != 0: Lookup adds the delta modulo 65536,
+	// Iter adds it in 32 bits, so Iter's glyph is Lookup's glyph + 0x10000.
+	kfCmap4Wide = "C11-cmap4-iter-delta-not-modulo"
+	// RuneSet.includes reports false when the included set carries an empty page left by Delete.
+	kfIncludesEmpty = "C11-includes-empty-page"
+	// newFootprintFromLoader tests the error of ParseOs2 the wrong way round, so a scanned font
+	// never gets its OS/2 font page: legacy Arabic fonts are scanned with the symbol remapping.
+	kfScanFontPage = "C11-scan-ignores-font-page"
 )
 
 // shape is what the harness knows about the structure of the cmap under test.
 type shape struct {
-	format    int  // format of the selected subtable (0 when unknown)
-	malformed bool // segments/groups unsorted, overlapping, start > end or beyond U+10FFFF
+	format    int  // format of the selected subtable (-1 when unknown)
 	remapped  bool // selected through the (3,0) symbol path: wrapped in a remapper
+	inverted  bool // some segment/group has start > end
+	unordered bool // segments/groups unsorted or overlapping, or codes beyond U+10FFFF
 }
 
 func shapeOfType(rp *report) shape {
-	var sh shape
+	sh := shape{format: -1}
 	switch rp.innerType {
 	case "font.cmap0":
 		sh.format = 0
@@ -393,6 +432,31 @@ func shapeOfType(rp *report) shape {
 	return sh
 }
 
+// scriptDiscs compares the ScriptSet with an expectation (script -> witness rune).
+func scriptDiscs(ss fontscan.ScriptSet, want map[language.Script]rune, what string) (out []disc) {
+	have := map[language.Script]bool{}
+	for i, sc := range ss {
+		have[sc] = true
+		if i > 0 && ss[i-1] >= sc {
+			out = append(out, disc{Class: dScriptOrder, Script: sc.String(), Msg: fmt.Sprintf("ScriptSet is not strictly increasing at index %d (%q after %q)", i, sc.String(), ss[i-1].String())})
+		}
+		if _, w := want[sc]; !w {
+			out = append(out, disc{Class: dScriptExtra, Script: sc.String(), Msg: fmt.Sprintf("ScriptSet contains %q but no rune %s has that script", sc.String(), what)})
+		}
+	}
+	var missing []language.Script
+	for sc := range want {
+		if !have[sc] {
+			missing = append(missing, sc)
+		}
+	}
+	sort.Slice(missing, func(i, j int) bool { return missing[i] < missing[j] })
+	for _, sc := range missing {
+		out = append(out, disc{Class: dScriptMissing, Rune: want[sc], Script: sc.String(), Msg: fmt.Sprintf("%s (script %q) is a rune %s but the ScriptSet lacks that script", u(want[sc]), sc.String(), what)})
+	}
+	return out
+}
+
 // judge filters the discrepancies of a report through the known-finding matchers and returns the
 // first unexplained one (nil when the case passes) and the ids of the findings that matched.
 func judge(rp *report, sh shape) (*disc, []string) {
@@ -406,51 +470,52 @@ func judge(rp *report, sh shape) (*disc, []string) {
 		return false
 	}
 	var first *disc
-	scriptsLoose := false
+	covExcused := false // a coverage/Lookup disagreement was matched by a known finding
 	for i := range rp.discs {
 		d := &rp.discs[i]
 		ok := false
 		switch d.Class {
 		case dIterNotLookup, dRangesExtra, dCovExtra:
-			// format 4 zero entry: Iter reports the rune with glyph 0
-			if sh.format == 4 && inRange(d.Rune) && s.itZero.has(d.Rune) && use(kfCmap4Zero) {
-				ok = true
-				scriptsLoose = true
-			}
+			// format 4 zero entry: Iter itself reports the rune with glyph 0
+			ok = sh.format == 4 && inRange(d.Rune) && s.itZero.has(d.Rune) && use(kfCmap4Zero)
 		case dLookupNotIter, dCovMissing, dRangesMissing:
-			// remapped rune: the wrapped cmap does not map it itself
-			if sh.remapped && use(kfRemap) {
-				ok = true
-				scriptsLoose = true
-			}
+			// remapped rune: the wrapped cmap does not map the rune itself
+			ok = sh.remapped && use(kfRemap)
+		case dIterGlyph:
+			ok = sh.format == 4 && d.Glyph > 0xFFFF && int64(d.Glyph&0xFFFF) == d.Lookup && use(kfCmap4Wide)
 		}
-		if !ok && sh.malformed && d.Class != dPanic && d.Class != dScriptOrder && use(kfUnsorted) {
-			ok = true
-			scriptsLoose = true
+		if !ok && sh.inverted && d.Class != dPanic {
+			ok = use(kfInverted)
 		}
-		if d.Class == dScriptExtra || d.Class == dScriptMissing {
-			continue // second pass
+		if !ok && sh.unordered && d.Class != dPanic {
+			ok = use(kfUnordered)
+		}
+		if ok && (d.Class == dCovExtra || d.Class == dCovMissing) {
+			covExcused = true
 		}
 		if !ok && first == nil {
 			first = d
 		}
 	}
-	// scripts: when the rune sets legitimately differ by a known finding the script set may
-	// reflect either side; otherwise it must be exact, up to the scriptsFromRanges finding.
-	for i := range rp.discs {
-		d := &rp.discs[i]
-		if d.Class != dScriptExtra && d.Class != dScriptMissing {
-			continue
-		}
+	// Script set: exactly the scripts of the runes Lookup maps. When coverage and Lookup differ for
+	// a listed reason, the weaker predicate "exactly the scripts of the runes of the coverage"
+	// (Footprint.Scripts: "the set of scripts deduced from Runes") is demanded instead.
+	want, what := rp.wantLookup, "mapped by Lookup"
+	if covExcused && first == nil {
+		want, what = rp.wantCovered, "contained in the coverage"
+	}
+	for _, d := range scriptDiscs(rp.scripts, want, what) {
+		d := d
+		rp.counts[d.Class]++
 		ok := false
-		if scriptsLoose && rp.covDiffers == (rp.counts[dCovExtra]+rp.counts[dCovMissing] > 0) && scriptExplained(d, rp) {
-			ok = true
+		if d.Class == dScriptExtra && d.Script == language.Unknown.String() && rp.ranger && reachesLastScriptRange() {
+			ok = use(kfScriptsLast)
 		}
-		if !ok && d.Class == dScriptExtra && d.Script == language.Unknown.String() && rp.ranger && reachesLastScriptRange() && use(kfScriptsLast) {
-			ok = true
+		if !ok && d.Class != dScriptOrder && (sh.inverted && use(kfInverted) || sh.unordered && use(kfUnordered)) {
+			ok = true // scriptsFromRanges requires sorted ranges
 		}
 		if !ok && first == nil {
-			first = d
+			first = &d
 		}
 	}
 	ids := make([]string, 0, len(matched))
@@ -461,12 +526,6 @@ func judge(rp *report, sh shape) (*disc, []string) {
 	return first, ids
 }
 
-// scriptExplained: the script disagreement is carried by runes on which coverage and Lookup
-// disagree for an already matched reason (the script set follows the coverage's rune set).
-func scriptExplained(d *disc, rp *report) bool {
-	return rp.counts[dCovExtra]+rp.counts[dCovMissing]+rp.counts[dLookupNotIter]+rp.counts[dIterNotLookup] > 0
-}
-
 // reachesLastScriptRange: some rune described by RuneRanges lies at or after the start of the last
 // entry of language.ScriptRanges.
 func reachesLastScriptRange() bool {
@@ -474,11 +533,6 @@ func reachesLastScriptRange() bool {
 	for r := last.Start; r <= maxRune; r++ {
 		if scr.rrSet.has(r) {
 			return true
-		}
-		if r&63 == 0 {
-			for r+64 <= maxRune && scr.rrSet[uint32(r)>>6] == 0 {
-				r += 64
-			}
 		}
 	}
 	return false
@@ -553,14 +607,20 @@ func footprintLoaderCheck(t ev.TB, file string, faces []*font.Face) {
 		// name the first rune on which the scanned footprint disagrees with the loaded face
 		for r := rune(0); r <= maxRune; r++ {
 			_, ok := faces[i].NominalGlyph(r)
-			if fp.Runes.Contains(r) != ok {
-				if _, remapped := innerCmap(faces[i].Cmap); remapped && ev.Known(kfRemap) {
-					ev.Excluded(kfRemap)
-					break
-				}
-				ev.Fail(t, "corpus", corpusCase{File: file, Index: i, Type: fmt.Sprintf("%T", faces[i].Cmap)},
-					"%s[%d]: scanned footprint (newFootprintFromLoader) contains(%s)=%v but the loaded face's NominalGlyph ok=%v", file, i, u(r), !ok, ok)
+			if fp.Runes.Contains(r) == ok {
+				continue
 			}
+			tn := fmt.Sprintf("%T", faces[i].Cmap)
+			if _, remapped := innerCmap(faces[i].Cmap); remapped && ev.Known(kfRemap) {
+				ev.Excluded(kfRemap)
+				break
+			}
+			if strings.HasPrefix(tn, "font.remaperPUA") && ev.Known(kfScanFontPage) {
+				ev.Excluded(kfScanFontPage)
+				break
+			}
+			ev.Fail(t, "corpus", corpusCase{File: file, Index: i, Type: tn},
+				"%s[%d] (%s): the scanned footprint (newFootprintFromLoader) contains(%s)=%v but the loaded face's NominalGlyph reports ok=%v", file, i, tn, u(r), !ok, ok)
 		}
 	}
 }
